@@ -28,7 +28,7 @@ theorem inv_init : Inv State.init := Gatery.C09.inv_init
 resizeInputs, resizeOutputs, bypassOutputToInput, setOutputConnectionType, moveToGroup, attachClock, detachClock, addClock,
 addRef, removeRef, deleting the node stored at any index of `m_nodes` with the swap-with-back idiom, the whole pass
 `cullOrphanedSignalNodes`, `createUnconnectedClone`, `copySubnet` with and without `copyClocks`, the destruction of a clock, and
-`Clock::setLogicClockDriver` / `setLogicResetDriver` in any order and repeatedly)
+`Clock::setLogicClockDriver` / `setLogicResetDriver` in any order and repeatedly, and the caching getter `Clock::getClockedNodes`)
 that returns normally preserves the invariant — for every state, every argument. -/
 theorem inv_step (s s' : State) (op : Op) (hI : Inv s) (hr : step s op = .ok s') : Inv s' :=
   Gatery.C09.inv_step op hI hr
@@ -74,8 +74,38 @@ a clock and its driver nodes is bidirectional -/
 theorem inv_driver_registered (s : State) (hI : Inv s) (k c d : Nat) (hk : k = 1 ∨ k = 2) (hc : c < s.nclocks)
     (hcal : s.calive c = true) (hd : s.drv k c = some d) :
     s.live d ∧ s.dk d = k ∧ s.clk d 0 = some c ∧ (s.clocked c).count ⟨d, 0⟩ = 1 := by
-  obtain ⟨a, b, e, f, g⟩ := hI.1.2.2.2.2.2 c hc hcal k (by omega) (by omega) d hd
+  obtain ⟨a, b, e, f, g⟩ := hI.1.2.2.2.2.2.1 c hc hcal k (by omega) (by omega) d hd
   exact ⟨⟨a, b⟩, e, g, (hI.1.2.2.1.1 d a b 0 f c g).2⟩
+
+/-- the view `Clock::getClockedNodes()` hands out (`m_clockedNodesCache`, built lazily, extended by `attachClock` only when already
+built, dropped by `detachClock`) is never stale: in every reachable state it is either not built or a duplicate-free list of exactly
+the registered (node, port) pairs -/
+theorem inv_cache_complete (s : State) (hI : Inv s) (c : Nat) (hc : c < s.nclocks) (hne : s.cache c ≠ []) (x : NodePort) :
+    x ∈ s.cache c ↔ x ∈ s.clocked c := by
+  rcases hI.1.2.2.2.2.2.2 c hc with h0 | ⟨_, h1, h2⟩
+  · exact absurd h0 hne
+  · exact ⟨h1 x, h2 x⟩
+
+/-- … and what the getter returns right after the call is a permutation of the registered set -/
+theorem getClockedNodes_complete (s s' : State) (c : Nat) (hI : Inv s) (hr : getClockedNodes s c = .ok s') :
+    Inv s' ∧ ∀ x, x ∈ s'.cache c ↔ x ∈ s'.clocked c := by
+  have hI' := Gatery.C09.inv_step (.getClockedNodes c) hI hr
+  refine ⟨hI', fun x => ?_⟩
+  unfold getClockedNodes at hr
+  split at hr
+  · cases hr
+  rename_i hg
+  obtain ⟨hc, _⟩ := Classical.not_not.mp hg
+  split at hr
+  · have e := Except.ok.inj hr
+    subst e
+    show x ∈ upd s.cache c (sortNP s.nid (s.clocked c)) c ↔ x ∈ s.clocked c
+    rw [upd_same]
+    exact (sortNP_perm s.nid (s.clocked c)).mem_iff
+  · rename_i hne
+    have e := Except.ok.inj hr
+    subst e
+    exact inv_cache_complete s hI c hc hne x
 
 /-- `createUnconnectedClone` (with `copyBaseToClone` as it is: `m_clocks.resize(n)`): the clone has as many clock ports as the
 source and none of them is set, so nothing has to be registered; the graph stays well formed -/
@@ -182,6 +212,21 @@ def obs4 (r : Res State) : Option (Option Nat × Option Nat × List NodePort × 
 
 example : obs4 (run State.init (demoOps4.take 5)) = some (some 1, some 0, [⟨0, 0⟩, ⟨1, 0⟩], some 0, some 0, [0, 1]) := by rfl
 example : obs4 (run State.init demoOps4) = some (some 2, some 3, [⟨2, 0⟩, ⟨3, 0⟩], none, none, [3, 1, 2]) := by rfl
+
+/-- the cache scenario: attach A, B; build the view; detach A (view dropped); attach C (must not start a partial view); build again -/
+def demoOps5 : List Op :=
+  [.createClock, .createNode false 0 0 1, .createNode false 0 0 1, .createNode false 0 0 1,
+   .attachClock 0 0 (some 0), .attachClock 1 0 (some 0), .getClockedNodes 0, .attachClock 2 0 (some 0), .detachClock 0 0,
+   .attachClock 0 0 (some 0), .getClockedNodes 0]
+
+def obs5 (r : Res State) : Option (List NodePort × List NodePort) :=
+  match r with
+  | .ok s => some (s.clocked 0, s.cache 0)
+  | .error _ => none
+
+example : obs5 (run State.init (demoOps5.take 8)) = some ([⟨0, 0⟩, ⟨1, 0⟩, ⟨2, 0⟩], [⟨0, 0⟩, ⟨1, 0⟩, ⟨2, 0⟩]) := by rfl
+example : obs5 (run State.init (demoOps5.take 10)) = some ([⟨1, 0⟩, ⟨2, 0⟩, ⟨0, 0⟩], []) := by rfl
+example : obs5 (run State.init demoOps5) = some ([⟨1, 0⟩, ⟨2, 0⟩, ⟨0, 0⟩], [⟨0, 0⟩, ⟨1, 0⟩, ⟨2, 0⟩]) := by rfl
 
 /-- the premises of `bypass_ok` / `bypass_self_diverges` are satisfiable: node 1 (one consumer) can be bypassed, node 0 cannot -/
 def demoOps2 : List Op :=
